@@ -313,6 +313,9 @@ def run_backend(backend, kind, term, root_kind):
             for col in outer_cols:
                 if ("%s.%s" % (outer_tbl, col)) not in __import__("re").split(r"\bWHERE\b", hay.replace('"', ""), maxsplit=1)[-1]:
                     return "incomplete-known:orm:lambda-body-outer-field-rebound", "outer column %s.%s missing: %s" % (outer_tbl, col, hay[:300])
+        if kind == "null-order" and not __import__("re").search(r"[<>]", hay):
+            # `x gt null` translated at all must still be an ordering comparison (it selects nothing), not a null test
+            return "incomplete", "ordering operator missing: %s" % hay[:300]
         for f in fields:
             if ('"%s"' % f) not in hay and ("." + f) not in hay:
                 return "incomplete", "field %s missing: %s" % (f, hay[:300])
@@ -374,6 +377,10 @@ def null_list_terms():
             ("null-arith", T.binop("Eq", T.binop("Add", n, T.NULL), one))]
     for op in ("Lt", "LtE", "Gt", "GtE"):
         out += [("null-order", T.binop(op, n, T.NULL)), ("null-order", T.binop(op, T.NULL, n))]
+    for op in ("Lt", "GtE"):
+        cmp_ = T.binop(op, T.call("length", s), T.NULL)
+        out += [("null-order", cmp_), ("null-order", T.unop("Not", T.binop(op, n, T.NULL))), ("null-order", T.binop("Or", T.binop(op, n, T.NULL), T.binop("Eq", s, T.Str("zzz")))),
+                ("null-order", T.binop("And", T.binop("Eq", s, T.Str("zzz")), cmp_)), ("null-order", T.binop(op, T.binop("Add", n, one), T.NULL))]
     out += [("null-in-list", T.binop("In", n, T.lst(one, T.NULL))), ("null-in-list", T.binop("In", s, T.lst(T.Str("a"), T.NULL))),
             ("null-in-list", T.unop("Not", T.binop("In", n, T.lst(T.NULL))))]
     out += [("list-operand", T.binop("Eq", L12, L12)), ("list-operand", T.binop("NotEq", L12, L12)), ("list-operand", T.binop("Lt", L12, L13)),
@@ -386,6 +393,13 @@ def null_list_terms():
             ("overflow-literal", T.binop("Gt", typed.F("d"), T.binop("Add", typed.F("d"), ("Duration", "P1000000000D")))),
             ("overflow-literal", T.binop("Lt", typed.F("d"), T.binop("Sub", T.call("now"), ("Duration", "P2737908Y")))),
             ("overflow-literal", T.binop("Eq", n, ("Integer", "9223372036854775808")))]
+    # the same unconvertible literals as MEMBERS of a list made of one kind only (a list rendered in one go must refuse like its members)
+    dd = typed.F("d")
+    out += [("overflow-literal", T.binop("In", n, T.lst(big, one))), ("overflow-literal", T.binop("In", n, T.lst(big))),
+            ("overflow-literal", T.binop("In", dd, T.lst(("Date", "2020-02-30"), ("Date", "2020-01-01")))), ("overflow-literal", T.binop("In", dd, T.lst(("Date", "2020-01-01"), ("Date", "2021-02-29")))),
+            ("overflow-literal", T.binop("In", dd, T.lst(("DateTime", "2020-02-30T00:00:00Z"), ("DateTime", "2020-01-01T00:00:00Z")))),
+            ("overflow-literal", T.binop("In", dd, T.lst(("Duration", "P1000000000D"), ("Duration", "P1D")))), ("overflow-literal", T.binop("Eq", dd, ("Date", "2020-02-30"))),
+            ("overflow-literal", T.binop("In", n, T.lst(("Float", "1e999"), ("Float", "1.5")))), ("overflow-literal", T.binop("In", s, T.lst(T.Str("a"), ("Date", "2020-02-30"))))]
     out += [("named-builtin", T.binop("Eq", T.call("substring", T.named("fullstr", T.Str("zzz")), T.named("fullstr", s), T.named("index", T.Int(0))), s)),
             ("named-builtin", T.binop("Eq", T.call("length", T.named("arg", L12)), two)), ("named-builtin", T.call("contains", T.named("field", s), T.named("field", T.Str("x"))))]
     out += [("named-builtin", T.binop("Eq", T.call("substring", T.named("fullstr", s), T.named("nchars", two)), s)), ("named-builtin", T.binop("Eq", T.call("substring", T.named("index", one), T.named("nchars", two)), s)),
